@@ -28,7 +28,9 @@ EXTENDS Integers, Sequences, FiniteSets, TLC
 -----------------------------------------------------------------------------
 (* Pure geometry of a node sequence `nodes` under loop counters `idx`       *)
 
-IsLoop(n) == n.kind = "T"
+\* "T" = temporal loop, "P" = spatial loop (executed like a temporal loop: same tiles, same points;
+\* the access counts of spatial loops - multicast, per-instance actions - are NOT modelled yet)
+IsLoop(n) == n.kind \in {"T", "P"}
 IsHolder(n) == n.kind = "S"
 
 \* indices of loops over rank variable r strictly above position p
@@ -80,7 +82,7 @@ IsOutput(W, t) == t = W.out
 (* Well-formedness of a complete mapping (what the property quantifies over) *)
 WellFormed(W, nodes) ==
   /\ Len(nodes) >= 1 /\ nodes[Len(nodes)].kind = "C"
-  /\ \A j \in 1..(Len(nodes)-1) : nodes[j].kind \in {"S", "T"}
+  /\ \A j \in 1..(Len(nodes)-1) : nodes[j].kind \in {"S", "T", "P"}
   \* every tensor has a holder; the compute sees every rank variable at tile 1
   /\ \A t \in DOMAIN W.proj : InnermostHolder(nodes, t) # 0
   /\ \A r \in DOMAIN W.bound : Ext(W, nodes, Len(nodes), r) = 1
